@@ -2141,6 +2141,13 @@ class RepeatingEngine(Engine):
                 self.lastExecution = False
                 self.emit_now()
 
+        # VV: A RepeatingEngine restarts at most once, a smaller maxRestarts (i.e. 0: cannot restart at all) is honoured too
+        max_restarts = self.job.workflowAttributes.get('maxRestarts', None)
+        if max_restarts is not None and max_restarts != -1 and self.restarts + 1 > max_restarts:
+            self.log.info("Already restarted maximum number of times (%d) - will return RestartMaxAttemptsExceeded" %
+                          max_restarts)
+            return experiment.model.codes.restartCodes['RestartMaxAttemptsExceeded']
+
         # VV: @tag:RestartEngines
         if reason == experiment.model.codes.exitReasons["ResourceExhausted"] and self.restarts == 0:
             # VV: A RepeatingEngine will only restart once and only if its last exit-reason was ResourceExhausted
